@@ -19,7 +19,9 @@ from yldprolog.compiler import compile_prolog_from_string  # noqa
 
 SHAPES = ['V', 'g(V)', 'g(h(V))', 'p(V,V)', 'p(g(V),V)', 'p(k,g(V))', 'p(V,W)', 'g(p(V,W))', 'p(k,V)',
           # lists: lst(a,b,V) is [a,b|V] (open tail), lst(V,nil) is [V]
-          'lst(a,b,V)', 'lst(V,W)', 'g(lst(k,V))', 'lst(V,nil)']
+          'lst(a,b,V)', 'lst(V,W)', 'g(lst(k,V))', 'lst(V,nil)',
+          # a variable first on its own and then again inside a structure
+          'p(V,g(V))', 'p(V,g(h(V)))', 'p(W,g(V,W))']
 
 
 def build(yp, shape, env):
@@ -66,6 +68,8 @@ def answers_alone(shape, binding):
 def run(sc):
     if sc.get('kind') == 'bound_arg':
         return run_bound(sc)
+    if sc.get('kind') == 'link':
+        return run_link(sc)
     shape, b1, b2, order = sc['shape'], sc['b1'], sc['b2'], sc['order']
     if sc.get('compiled'):
         yp = engine.YP()
@@ -156,9 +160,43 @@ def run_bound(sc):
     return not probs, '; '.join(probs) or 'ok'
 
 
+def run_link(sc):
+    """the occurrences of one variable in a stored fact stay ONE variable of the fact (and none of them is the caller's):
+    different constants for two occurrences never match; binding the asserting caller's variable afterwards changes nothing"""
+    shape = sc['shape']
+    yp = engine.YP()
+    env = {}
+    yp.assert_fact(yp.atom('f'), [build(yp, shape, env)])
+    probs = []
+
+    def probe(tag):
+        # occurrence-wise instantiation: first occurrence of V -> a, second -> b
+        parts = shape.split('V')
+        if len(parts) != 3:
+            return
+        same = parts[0] + 'a' + parts[1] + 'a' + parts[2]
+        diff = parts[0] + 'a' + parts[1] + 'b' + parts[2]
+        half = parts[0] + 'q' + parts[1] + 'Z' + parts[2]
+        if len(list(yp.query('f', [build(yp, same.replace('W', 'k'), {})]))) != 1:
+            probs.append('%s: f(%s) does not match the fact f(%s)' % (tag, same, shape))
+        if len(list(yp.query('f', [build(yp, diff.replace('W', 'k'), {})]))) != 0:
+            probs.append('%s: f(%s) matches the fact f(%s) although one variable would need two values' % (tag, diff, shape))
+        e2 = {}
+        got = [engine.to_python(e2['Z']) for _ in yp.query('f', [build(yp, half.replace('W', 'k'), e2)])]
+        if got != ['q']:
+            probs.append('%s: f(%s) gives Z = %r, expected q' % (tag, half, got))
+    probe('after the assertion')
+    for _ in engine.unify(env['V'], yp.atom('zz')):
+        probe('while the asserting variable is bound to zz')
+    return not probs, '; '.join(probs[:3]) or 'ok'
+
+
 def scenarios(seed, count):
     rng = random.Random(seed)
     out = []
+    for shape in SHAPES:
+        if shape.count('V') == 2:
+            out.append(dict(kind='link', shape=shape))
     for value in ('atom', 'int', 'struct', 'structvar'):
         for chain in (False, True):
             for rebind in (False, True):
@@ -192,14 +230,14 @@ def main():
     for sc in scs:
         ok, detail = run(sc)
         n += 1
-        if sc.get('kind') == 'bound_arg' or sc['b1'] != sc['b2']:
+        if sc.get('kind') in ('bound_arg', 'link') or sc['b1'] != sc['b2']:
             nontriv.add(json.dumps(sc, sort_keys=True))
         if not ok and len(fails) < 20:
             fails.append(dict(scenario=sc, detail=detail))
     print(json.dumps(dict(evaluations=n, distinct_nontrivial=len(nontriv), failures=fails, failure_count=len(fails), samples=scs[:3],
-                          exhaustive=count >= 581,
-                          rule='13 fact shapes (variables at depth 0-2, repeated, two variables, lists with an open tail) x 3x3 constant choices for the two uses x 4 interleavings '
-                               '+ compiled conjunction (549 scenarios) + 32 facts asserted through the API with a bound variable argument (value kind x chain x later rebinding x position), shuffled by seed; non-trivial = the two uses bind the fact variables differently')))
+                          exhaustive=count >= 716,
+                          rule='16 fact shapes (variables at depth 0-2, repeated, two variables, lists with an open tail) x 3x3 constant choices for the two uses x 4 interleavings '
+                               '+ compiled conjunction (684 scenarios) + 32 facts asserted through the API with a bound variable argument (value kind x chain x later rebinding x position), shuffled by seed; non-trivial = the two uses bind the fact variables differently')))
 
 
 if __name__ == '__main__':
